@@ -63,7 +63,22 @@ var Stamps = []string{
 	"2021/02/27 - 14:14:20",
 	"not a time",
 	"1610960605000",
+	// instants around daylight-saving transitions (repeated and skipped local hours)
+	"2024-11-03T08:30:00Z", // America/Los_Angeles 01:30 PDT, first pass
+	"2024-11-03T09:30:00Z", // America/Los_Angeles 01:30 PST, second pass
+	"2024-11-03T04:15:00Z", // America/St_Johns, repeated hour
+	"2024-10-27T00:30:00Z", // Europe/Berlin 02:30 CEST, first pass
+	"2024-10-27T01:30:00Z", // Europe/Berlin 02:30 CET, second pass
+	"2024-04-06T15:45:00Z", // Australia/Lord_Howe, half-hour shift
+	"2024-03-10T10:30:00Z", // America/Los_Angeles, just after the skipped hour
+	"2024-11-03 01:30:00",  // zone-less and ambiguous in US zones
 }
+
+// Zones used by environment-sensitive harnesses (with and without DST, odd offsets).
+var Zones = []string{"UTC", "Asia/Shanghai", "America/St_Johns", "America/Los_Angeles", "Europe/Berlin", "Australia/Lord_Howe", "Pacific/Kiritimati"}
+
+// EdgeInstants are wall-clock instants (unix seconds) inside repeated or skipped local hours of the zones above.
+var EdgeInstants = []int64{1730622600, 1730626200, 1730607300, 1729989000, 1729992600, 1712418300, 1710066600}
 
 func GenPoint(r *simrt.RNG) PointT {
 	p := PointT{Measurement: "m", Msg: Messages[r.Intn(len(Messages))], Tags: map[string]string{"t1": "tv"},
@@ -100,6 +115,24 @@ if false {
   }
 }
 `
+	},
+	// the same pattern NAME means different things in different scripts, defined in an
+	// outer frame and used in a nested block (a compiled-pattern cache keyed by text would mix them up)
+	func(r *simrt.RNG, id int) string {
+		name := []string{"tok", "WORD", "INT", "sep"}[r.Intn(4)]
+		def := []string{"[a-z]+", "[a-z0-9]+", "\\\\d+", "[a-z]{2}", "hello"}[r.Intn(5)]
+		decl := fmt.Sprintf("add_pattern(%q, \"%s\")\n", name, def)
+		if r.Intn(4) == 0 {
+			decl = "" // relies on the global pattern of that name, or fails the check when there is none
+		}
+		switch r.Intn(3) {
+		case 0:
+			return decl + fmt.Sprintf("if true {\n  grok(_, \"%%{%s:word} %%{NUMBER:num}\")\n}\n", name)
+		case 1:
+			return decl + fmt.Sprintf("for i = 0; i < 1; i = i + 1 {\n  if true {\n    grok(_, \"%%{%s:word} %%{NUMBER:num}\")\n  }\n}\n", name)
+		default:
+			return decl + fmt.Sprintf("grok(_, \"%%{%s:word} %%{NUMBER:num}\")\n", name)
+		}
 	},
 	// nginx-like grok with global patterns
 	func(r *simrt.RNG, id int) string {
@@ -236,6 +269,12 @@ func Mutate(r *simrt.RNG, s string) string {
 			b = append(b[:p], append([]byte("99999999999999999999999"), b[p:]...)...)
 		case 5:
 			b = append(b, []byte("\nif x { for ;; { ")...)
+		}
+		if i == n-1 && r.Intn(6) == 0 {
+			// the very last thing in the source: an operator applied to a malformed number, no trailing newline
+			// (the parser panics internally with the lookahead already at end of input)
+			tail := []string{"\nzz = -0x", "\nzz = -1e999", "\nzz = 4 / 0x", "\nzz = 4 % 1e999 ", "\nzz = -1e # c"}[r.Intn(5)]
+			b = append([]byte(strings.TrimRight(string(b), "\n")), []byte(tail)...)
 		}
 		if len(b) == 0 {
 			b = []byte("[")
